@@ -1,5 +1,5 @@
 (* C18 - Repeat re-sends the latest event at the configured pace and count. *)
-From Verif Require Import Values Repeat RepeatProofs.
+From Verif Require Import Values Repeat RepeatProofs RepeatProofs2.
 Open Scope list_scope.
 Open Scope Z_scope.
 
@@ -41,6 +41,26 @@ Theorem C18_nothing_after_stop : forall c s x, r_stopped s = true ->
   match x with RStop _ => True | _ => rstep_do c s x = None end.
 Proof. exact nothing_after_stop. Qed.
 
+(* "until 'count' repetitions have been sent": on EVERY accepted trace, of any length and with
+   any number of restarts, the repeat number never exceeds count, no copy is pending once count
+   copies were sent, and every single copy in the trace carries a number in 1..count *)
+Theorem C18_never_exceeds_count : forall c xs s' k,
+  rc_count c = Some k -> rrun c rstate0 xs = Some s' ->
+  (r_n s' <= k)%nat /\ (r_n s' = k -> r_deadline s' = None).
+Proof. exact repeat_never_exceeds_count. Qed.
+
+Theorem C18_copy_number_bounded : forall c pre t tag n post s' k,
+  rc_count c = Some k -> rrun c rstate0 (pre ++ RResend t tag n :: post) = Some s' -> (1 <= n <= k)%nat.
+Proof. exact repeat_copy_number_bounded. Qed.
+
+(* non-vacuity of the two: count 2, the trace with both copies is accepted, a third copy is not *)
+Example C18_count_nonvacuous :
+  let c := {| rc_interval := 100000; rc_count := Some 2%nat |} in
+  (exists s, rrun c rstate0 [RRecv 0 1 true true; RResend 100000 1 1; RResend 200000 1 2] = Some s /\
+             r_n s = 2%nat /\ r_deadline s = None) /\
+  rrun c rstate0 [RRecv 0 1 true true; RResend 100000 1 1; RResend 200000 1 2; RResend 300000 1 3] = None.
+Proof. split; [eexists; vm_compute; repeat split; reflexivity|vm_compute; reflexivity]. Qed.
+
 (* non-vacuity: interval 100 ms, count 3; a newer event after the second copy restarts *)
 Example C18_nonvacuous :
   let c := {| rc_interval := 100000; rc_count := Some 3%nat |} in
@@ -60,3 +80,5 @@ Print Assumptions C18_other_types_ignored.
 Print Assumptions C18_other_types_not_forwarded.
 Print Assumptions C18_count_zero_no_copy.
 Print Assumptions C18_nothing_after_stop.
+Print Assumptions C18_never_exceeds_count.
+Print Assumptions C18_copy_number_bounded.
